@@ -15,11 +15,12 @@
  *                          XC_BL  the socket is blocking;
  *                          none   both.
  * Attached to the REAL functions by redeclaration after the TU has been #included.
+ * Included TWICE by harness/xcmcore/_unit.h: before the TU (ghost globals only -- the loop contracts spliced into the TU
+ * name them) and, with XC_CONTRACTS defined, after it (the contracts).
  */
-#ifndef XV_XCMCORE_H
-#define XV_XCMCORE_H
-#include "contracts/begin.h"
-
+#ifndef XV_XCMCORE_GHOST_H
+#define XV_XCMCORE_GHOST_H
+struct xcm_socket; struct xpoll;
 /* ================================================================================================================ */
 /* ghost state of the unit (havocked by xv_xcmcore_havoc() at the start of every harness)                            */
 /* ================================================================================================================ */
@@ -44,6 +45,13 @@ _Bool xv_updated; int xv_upd_cond; struct xcm_socket *xv_upd_sock;
 /* lifecycle: sockets handed to close/cleanup/destroy, xpoll instances destroyed */
 struct xcm_socket *xv_closed_sock, *xv_cleaned_sock, *xv_destroyed_sock; struct xpoll *xv_destroyed_xpoll;
 int xv_fd_ret;                  /* what xpoll_get_fd returned last */
+
+_Bool xv_poll_failed;           /* a poll() call has failed (set by the poll stub of env/xcmcore_env.h, never cleared) */
+#endif
+
+#if defined(XC_CONTRACTS) && !defined(XV_XCMCORE_H)
+#define XV_XCMCORE_H
+#include "contracts/begin.h"
 
 #define XC_U8(p) ((const uint8_t *)(p))
 #define XC_CNT_MAX (1L << 60)
@@ -142,7 +150,7 @@ __CPROVER_ensures(xv_updated && xv_upd_cond == s->condition && xv_upd_sock == s)
 bool xcm_tp_socket_is_bytestream(struct xcm_socket *s)
 __CPROVER_requires(1)
 __CPROVER_assigns()
-__CPROVER_ensures(__CPROVER_return_value == (s == xv_sock ? xv_bytestream : __CPROVER_return_value))
+__CPROVER_ensures(s == xv_sock ==> __CPROVER_return_value == xv_bytestream)
 ;
 
 /* ---- xpoll.c: the socket's one descriptor; errno untouched */
@@ -150,6 +158,110 @@ int xpoll_get_fd(struct xpoll *xpoll)
 __CPROVER_requires(1)
 __CPROVER_assigns(xv_fd_ret)
 __CPROVER_ensures(__CPROVER_return_value >= 0 && xv_fd_ret == __CPROVER_return_value)
+;
+
+/* ================================================================================================================ */
+/* part 2: libxcm/core/xcm.c                                                                                        */
+/* ================================================================================================================ */
+#define XC_SOCK(s) (__CPROVER_is_fresh((s), sizeof(struct xcm_socket)) && (s) == xv_sock)
+
+/* ---- socket_wait: THE blocking primitive of the API layer: sets the condition, lets the transport see it, sleeps in
+ * poll(-1) on the socket's descriptor.  0 = something happened; -1 = poll failed (EINTR ...), errno says why */
+static int socket_wait(struct xcm_socket *conn_s, int condition)
+__CPROVER_requires(__CPROVER_is_fresh(conn_s, sizeof(struct xcm_socket)))
+__CPROVER_assigns(xv_errno, xv_blocked, xv_fd_ret, XC_WAIT_FRAME(conn_s))
+__CPROVER_ensures(__CPROVER_return_value == 0 || __CPROVER_return_value == -1)
+__CPROVER_ensures(xv_blocked && conn_s->condition == condition && xv_updated && xv_upd_cond == condition && xv_upd_sock == conn_s)
+__CPROVER_ensures(__CPROVER_return_value == -1 ==> (xv_poll_failed && xv_errno > 0 && !XC_RETRY(xv_errno)))
+__CPROVER_ensures(__CPROVER_return_value == 0 ==> (xv_poll_failed == __CPROVER_old(xv_poll_failed) && xv_errno == __CPROVER_old(xv_errno)))
+;
+
+/* ---- socket_finish: blocking flush: repeats the transport's finish while it says "try again", sleeping in between.
+ * Accepts and delivers nothing.  -1 = the wait was interrupted or the connection died */
+static int socket_finish(struct xcm_socket *s)
+__CPROVER_requires(__CPROVER_is_fresh(s, sizeof(struct xcm_socket)) && !xv_poll_failed)
+__CPROVER_assigns(XC_FIN_FRAME, xv_blocked, xv_fd_ret, XC_WAIT_FRAME(s))
+__CPROVER_ensures(__CPROVER_return_value == 0 || __CPROVER_return_value == -1)
+__CPROVER_ensures(XC_DEAD_MONO && xv_fin_sock == s)
+__CPROVER_ensures(__CPROVER_return_value == 0 ==> (!xv_poll_failed && xv_fin_rv == 0))
+__CPROVER_ensures(__CPROVER_return_value == -1 ==> (xv_errno > 0 && (xv_poll_failed || (xv_conn_dead && xv_fin_rv == -1 && !XC_RETRY(xv_errno)))))
+;
+
+/* ---- msg_bsend: blocking send of one message: repeats the transport's send while it says EAGAIN */
+static int msg_bsend(struct xcm_socket *conn_s, const void *buf, size_t len)
+__CPROVER_requires(XC_SOCK(conn_s) && !xv_bytestream && !xv_poll_failed && XC_GHOST_RANGE)
+__CPROVER_requires(len <= XC_LEN_MAX && XC_BUF(buf, len))
+__CPROVER_assigns(XC_SEND_FRAME, xv_blocked, xv_fd_ret, XC_WAIT_FRAME(conn_s))
+__CPROVER_ensures(__CPROVER_return_value == 0 || __CPROVER_return_value == -1)
+__CPROVER_ensures(XC_DEAD_MONO && XC_TX_SAME)
+/* PO[C01,C03] msg_bsend.accepted_once_iff_success: for every EAGAIN/wait pattern */
+__CPROVER_ensures(__CPROVER_return_value == 0 ? (xv_accepted == __CPROVER_old(xv_accepted) + 1 && xv_acc_buf == buf && xv_acc_len == len && !xv_poll_failed) : XC_ACC_SAME)
+/* PO[C01] msg_bsend.retries_eagain: a blocking send never reports "try again" */
+__CPROVER_ensures(__CPROVER_return_value == -1 ==> (xv_errno > 0 && xv_errno != EAGAIN))
+;
+
+/* ---- bytestream_bsend: blocking send on a byte stream: offers the rest of the buffer until everything is accepted */
+static int bytestream_bsend(struct xcm_socket *conn_s, const void *buf, size_t len)
+__CPROVER_requires(XC_SOCK(conn_s) && xv_bytestream && !xv_poll_failed && XC_GHOST_RANGE)
+__CPROVER_requires(len >= XC_LEN_MIN && len <= XC_LEN_MAX && XC_BUF(buf, len))
+__CPROVER_assigns(XC_SEND_FRAME, xv_blocked, xv_fd_ret, XC_WAIT_FRAME(conn_s))
+__CPROVER_ensures(__CPROVER_return_value >= -1)
+__CPROVER_ensures(XC_DEAD_MONO && XC_ACC_SAME)
+/* PO[C02] bytestream_bsend.stream_grows_by_a_prefix: whatever is reported, what the transport accepted in this call is buf[0..n) for some n <= len, in order */
+__CPROVER_ensures(xv_tx_off >= __CPROVER_old(xv_tx_off) && xv_tx_off - __CPROVER_old(xv_tx_off) <= (long)len && \
+                  XC_TX_GREW(buf, xv_tx_off - __CPROVER_old(xv_tx_off)))
+/* PO[C02] bytestream_bsend.reports_what_was_accepted: rv >= 0 => exactly buf[0..rv) was accepted -- and a blocking send takes everything */
+__CPROVER_ensures(__CPROVER_return_value >= 0 ==> (xv_tx_off == __CPROVER_old(xv_tx_off) + __CPROVER_return_value && (size_t)__CPROVER_return_value == len && !xv_poll_failed))
+/* PO[C02] bytestream_bsend.failure_accepted_nothing: rv == -1 => no byte of this call's buffer was accepted */
+__CPROVER_ensures(__CPROVER_return_value == -1 ==> (xv_errno > 0 && XC_TX_SAME))
+;
+
+/* ---- xcm_send */
+int xcm_send(struct xcm_socket *__restrict conn_s, const void *__restrict buf, size_t len)
+__CPROVER_requires(XC_SOCK(conn_s) && XC_MODE(conn_s) && !xv_poll_failed && XC_GHOST_RANGE)
+#ifdef XC_KIND
+__CPROVER_requires(xv_bytestream == XC_KIND)
+#endif
+__CPROVER_requires(len <= XC_LEN_MAX && XC_BUF(buf, len))
+__CPROVER_assigns(XC_SEND_FRAME, XC_FIN_FRAME, xv_fd_ret, XC_WAIT_FRAME(conn_s))
+XC_MAY_BLOCK(conn_s->is_blocking)
+__CPROVER_ensures(__CPROVER_return_value >= -1 && XC_DEAD_MONO)
+__CPROVER_ensures(conn_s->type != xcm_socket_type_conn ==> (__CPROVER_return_value == -1 && xv_errno == EINVAL && XC_ACC_SAME && XC_TX_SAME))
+__CPROVER_ensures(xv_bytestream ? XC_ACC_SAME : XC_TX_SAME)
+/* PO[C01,C03] xcm_send.success_is_one_acceptance: messaging: rv 0 <=> the transport accepted (buf, len), once */
+__CPROVER_ensures(!xv_bytestream ==> ((__CPROVER_return_value == 0 || __CPROVER_return_value == -1) && \
+                  (__CPROVER_return_value == 0 ==> (xv_accepted == __CPROVER_old(xv_accepted) + 1 && xv_acc_buf == buf && xv_acc_len == len))))
+/* PO[C03] xcm_send.never_twice: whatever is reported, the message was accepted at most once */
+__CPROVER_ensures(!xv_bytestream ==> (XC_ACC_SAME || (xv_accepted == __CPROVER_old(xv_accepted) + 1 && xv_acc_buf == buf && xv_acc_len == len)))
+/* PO[C03] xcm_send.failure_leaves_no_trace: messaging: rv -1 => the message was not accepted (or the connection is dead: it will never be delivered) */
+__CPROVER_ensures((!xv_bytestream && __CPROVER_return_value == -1) ==> (xv_errno > 0 && (XC_ACC_SAME || xv_conn_dead)))
+/* PO[C02] xcm_send.reports_what_was_accepted: byte stream: rv >= 0 => exactly buf[0..rv) was accepted; 1..len for len > 0 */
+__CPROVER_ensures((xv_bytestream && __CPROVER_return_value >= 0) ==> ((size_t)__CPROVER_return_value <= len && (len > 0 ==> __CPROVER_return_value >= 1) && \
+                  XC_TX_GREW(buf, __CPROVER_return_value)))
+/* PO[C02] xcm_send.failure_accepted_nothing: byte stream: rv -1 => no byte of this call's buffer was accepted */
+__CPROVER_ensures((xv_bytestream && __CPROVER_return_value == -1) ==> (xv_errno > 0 && XC_TX_SAME))
+/* PO[C02] xcm_send.blocking_takes_everything */
+__CPROVER_ensures((xv_bytestream && __CPROVER_old(conn_s->is_blocking) && __CPROVER_return_value >= 0) ==> (size_t)__CPROVER_return_value == len)
+;
+
+/* ---- xcm_receive */
+int xcm_receive(struct xcm_socket *__restrict conn_s, void *__restrict buf, size_t capacity)
+__CPROVER_requires(XC_SOCK(conn_s) && XC_MODE(conn_s) && !xv_poll_failed && XC_GHOST_RANGE)
+__CPROVER_requires(capacity <= XC_LEN_MAX && XC_BUF(buf, capacity))
+__CPROVER_assigns(XC_RCV_FRAME, xv_fd_ret, XC_WAIT_FRAME(conn_s))
+__CPROVER_assigns(capacity > 0: __CPROVER_object_upto(buf, capacity))
+XC_MAY_BLOCK(conn_s->is_blocking)
+__CPROVER_ensures(__CPROVER_return_value >= -1 && XC_DEAD_MONO)
+__CPROVER_ensures(conn_s->type != xcm_socket_type_conn ==> (__CPROVER_return_value == -1 && xv_errno == EINVAL && XC_RCV_SAME))
+/* PO[C01,C02] xcm_receive.one_delivery: rv >= 0 is the result of exactly ONE successful transport receive into exactly (buf, capacity) */
+__CPROVER_ensures(__CPROVER_return_value >= 0 ==> (xv_delivered == __CPROVER_old(xv_delivered) + 1 && xv_rcv_rv == __CPROVER_return_value && \
+                  xv_rcv_buf == buf && xv_rcv_cap == capacity))
+/* PO[C01,C02] xcm_receive.failure_consumed_nothing: rv -1 => nothing was taken from the transport (no message dropped) */
+__CPROVER_ensures(__CPROVER_return_value == -1 ==> (xv_errno > 0 && XC_RCV_SAME))
+/* PO[C02] xcm_receive.never_more_than_capacity */
+__CPROVER_ensures(__CPROVER_return_value >= 0 ==> (size_t)__CPROVER_return_value <= capacity)
+/* PO[C01] xcm_receive.blocking_retries_eagain: a blocking receive loops on EAGAIN and only on EAGAIN */
+__CPROVER_ensures((__CPROVER_old(conn_s->is_blocking) && __CPROVER_return_value == -1) ==> xv_errno != EAGAIN)
 ;
 
 #include "contracts/end.h"
